@@ -99,6 +99,9 @@ func runConc(scnFile, traceFile, concFile string) error {
 			watch = append(watch, v)
 		}
 	}
+	if c, err := strconv.ParseUint(os.Getenv("VERIF_CHAOS"), 10, 64); err == nil {
+		verifrt.SetChaos(c)
+	}
 	verifrt.ConcStart(watch)
 	for g := 0; g < n; g++ {
 		wg.Add(1)
